@@ -360,7 +360,7 @@ impl Workload for Binding {
 pub fn run(ctx: &Ctx) -> i32 {
     let mut acc = Acc::new(ctx);
     let wl = Binding {
-        n: if ctx.quick() { 5000 } else { 1_000_000 },
+        n: if ctx.quick() { 25_000 } else { 1_000_000 },
     };
     acc.pool(&wl, "c08", false);
     // Canary: a swapped binder must be flagged.
